@@ -130,7 +130,7 @@ pub fn answer(req: &str) -> String {
             Some(src) => asm_answer(&src),
             None => "BADREQ".into(),
         },
-        "opnd" => match rest.trim().split(' ').next().and_then(dec) {
+        "opnd" | "jsp" => match rest.trim().split(' ').next().and_then(dec) {
             Some(src) => asm_answer(&src),
             None => "BADREQ".into(),
         },
